@@ -385,8 +385,10 @@ def normals_lemma(rep, timeout):
     obs.append(oblig.Ob("P  H1-H4 imply PG normal . true normal > 0", cond=le(sum((nt_v[k] * n1_v[k] for k in range(3)), ZERO), 0),
                         assume=[gt(N0, 0), gt(N1, 0), gt(bb, 0), gt(y[0] * y[0] + y[1] * y[1] + y[2] * y[2], 0)],
                         meta={"family": "Prandtl-Glauert-scaled normals point the same way as the normals of the stretched geometry"}))
+    # replayed through the real compressible group against the real incompressible group on the stretched geometry (the
+    # normals enter both the tangency system and the force recovery)
     run_obligations(rep, "PG normals vs stretched-geometry normals (one panel)", obs, timeout, levels=(1, 2), family=lambda ob: "PG frame: " + ob.meta["family"],
-                    fixed={"M": 0.5})
+                    fixed={"M": 0.5}, replay=lambda ob, env: replay_group([K.surface(2, 3, True)]))
 
 
 def replay_group(ss, rotational=False):
